@@ -388,6 +388,20 @@ func structuralLoop(h *ssa.BasicBlock) string {
 		if y.Block() != h && y.Block().Dominates(h) {
 			return "counted/range loop (finite by construction)"
 		}
+		// len(x) recomputed in the header: x is an SSA value (slice values are immutable), invariant when x is defined
+		// outside the loop
+		if c, isCall := y.(*ssa.Call); isCall {
+			if bi, isB := c.Call.Value.(*ssa.Builtin); isB && bi.Name() == "len" && len(c.Call.Args) == 1 {
+				switch a := c.Call.Args[0].(type) {
+				case *ssa.Parameter, *ssa.Const:
+					return "counted loop (finite by construction)"
+				case ssa.Instruction:
+					if a.Block() != h && a.Block().Dominates(h) {
+						return "counted loop over len(x), x defined before the loop (finite by construction)"
+					}
+				}
+			}
+		}
 		// len(x) recomputed in the header of a loop that does not change x is also accepted when x is a parameter/field load outside
 	case *ssa.Parameter:
 		return "counted loop (finite by construction)"
